@@ -419,3 +419,8 @@ K("c12_heap_shl_limbs", "heapvec", ["C12", "C04", "C05", "C13"], "heap back end:
 K("c13_heap_eq_cmp", "heapvec", ["C13", "C05"], "HeapVec eq / cmp / partial_cmp / from_u64 on vectors of <= 2 limbs", [HV + "eq", HV + "cmp", HV + "partial_cmp", HV + "from_u64"], strength="bounded", bound="<= 2 limbs", features=["alloc", "compact_alloc"], timeout=900)
 X("c08_unsafe_site_inventory", "static", _ss.unsafe_inventory, ["C08"], "every `unsafe` token in the real sources is listed in inventory/unsafe_sites.json with the obligation that covers it (a mismatch makes the check UNDECIDED: a new unsafe site must not pass silently)", ["crate-wide"], strength="proved")
 K("c14_float_pow10_ondemand_libm", "num", ["C14", "C05", "C08"], "no_std+compact: the bundled libm gives powd(10, k) == 10^k exactly for k = 0..=22 and powf(10, k) == 10^k for k = 0..=10 (concrete exponents; CBMC evaluates the libm code, including its unchecked table indexing)", ["num::Float::pow_fast_path (f64/f32, no_std+compact)", "libm::powd", "libm::powf"], strength="proved", bound="the finite set of 23 + 11 calls the fast path can make", features=["nostd_compact"], timeout=900)
+
+# negative_digit_comp: scaling plan and decision, all inputs (Bigint::pow as recorder)
+for t in ("f64", "f32"):
+    K("pslow_negative_plan_" + t, "slow", PSP, "negative_digit_comp::<%s> with Bigint::pow a pure recorder, ALL normalised estimates, ALL one-limb digit integers, ALL scales -4000 <= real_exp < 0: b+h = (2 m_b + 1, e_b - 1) from the truncated estimate; b+h scaled by 5^(-real_exp); with binary_exp = (e_b - 1) - real_exp the power 2^|binary_exp| goes to b+h if positive, to the digits if negative; result is b or the float above b exactly as the (recorded, unscaled) comparison says" % t, ["slow::negative_digit_comp", "slow::bh", "slow::b", "rounding::round", "rounding::round_down"], strength="proved", features=["default", "compact"], zflags=("stubbing",), timeout=900)
+    # (pslow_negative_tie_*: the tie decision with a pure recorder took 10 min (f32) / crashed CBMC (f64): NOT registered; ties stay with pslow_negative_comp_*_tie)
